@@ -23,8 +23,10 @@ PROPS = {
 
 PROPS["C17"] = dict(
     modules=["Hub.Props.C17"],
-    gens=["c17", "c17empty", "c17overlap"],
-    rule="(c17.overlap) the real job.Run over one batch with a rejecting sink while a second trigger of the same job fires during the k-th sink call and is turned away by the raffle: "
+    gens=["c17", "c17empty", "c17overlap", "c17rerun"],
+    rule="(c17.rerun) the real job.Run with a reRun handler and real timers (delay 400 ms), triggered 1-3 times 150 ms apart with a sink that rejects everything or nothing: number of runs "
+         "after settling = triggers + maxRetries for a failing job (the retry budget is shared and spent when a re-run is scheduled), = triggers for a succeeding one; "
+         "(c17.overlap) the real job.Run over one batch with a rejecting sink while a second trigger of the same job fires during the k-th sink call and is turned away by the raffle: "
          "the outcome must be that of the undisturbed bisection; real wrappedSink.processEntities (with the real LogFailingEntityHandler behind a recorder) against a scripted sink: all subsets "
          "of rejected positions for one batch of size <=7 (thorough <=10) x all maxItems in [0,n+1], plus sampled multi-batch runs with "
          "transient call failures and batches up to 200; non-trivial = more than one entity and at least one failure; distinct = distinct input",
